@@ -106,7 +106,7 @@ macro_rules! array_field {
         }
     )*};
 }
-array_field!(u8, 3; u16, 3; u32, 3; u64, 3; u64, 0; u8, 5);
+array_field!(u8, 3; u16, 3; u32, 3; u64, 3; u64, 0; u8, 5; u8, 20);
 
 impl FieldType for (u8, u32) {
     fn make(seed: u64) -> Self {
@@ -253,6 +253,57 @@ impl FieldType for Wide320 {
         *self = Self::make(seed);
     }
 }
+
+
+/// Large plain data: `$words` 64-bit words under the given alignment (serialised as a sequence).
+macro_rules! wide_plain {
+    ($name:ident, $words:expr, $(#[$attr:meta])*) => {
+        $(#[$attr])*
+        #[derive(Clone, Copy, Debug, PartialEq, Eq)]
+        pub struct $name(pub [u64; $words]);
+
+        impl Serialize for $name {
+            fn serialize<S: Serializer>(&self, s: S) -> Result<S::Ok, S::Error> {
+                self.0.to_vec().serialize(s)
+            }
+        }
+
+        impl<'de> Deserialize<'de> for $name {
+            fn deserialize<D: Deserializer<'de>>(d: D) -> Result<Self, D::Error> {
+                let v = Vec::<u64>::deserialize(d)?;
+                let a: Box<[u64; $words]> = v.into_boxed_slice().try_into().map_err(|_| D::Error::custom("wrong number of words"))?;
+                Ok($name(*a))
+            }
+        }
+
+        impl FieldType for $name {
+            fn make(seed: u64) -> Self {
+                let mut a = [0u64; $words];
+                for (i, x) in a.iter_mut().enumerate() {
+                    *x = mix(seed.wrapping_mul(131).wrapping_add(i as u64 + 1));
+                }
+                $name(a)
+            }
+            fn digest(&self) -> u64 {
+                let mut h = 0xcbf29ce484222325u64;
+                for x in self.0.iter() {
+                    h = (h ^ *x).wrapping_mul(0x100000001b3);
+                }
+                h
+            }
+            fn expect(seed: u64) -> u64 {
+                Self::make(seed).digest()
+            }
+            fn mutate(&mut self, seed: u64) {
+                *self = Self::make(seed);
+            }
+        }
+    };
+}
+
+// 8 KiB on a cache line (larger than a page-sized threshold), 80 000 bytes (larger than 64 KiB)
+wide_plain!(Tile8K, 1024, #[repr(C, align(64))]);
+wide_plain!(Buf80K, 10000, #[repr(C)]);
 
 /// Zero-size, alignment 16, no drop glue.
 #[derive(Clone, Copy, Debug, PartialEq, Eq, Serialize, Deserialize, Default)]
@@ -519,6 +570,9 @@ impl FieldType for [u64; 12] {
 
 token!(HugeTok, u32, u32, #[repr(C, align(8))] { pad: [u64; 160] = [0x4855474548554745; 160] });
 // exactly 256 bytes
+// a droppable value aligned above 16, and a droppable value above 4 KiB
+token!(TokA32, u32, u32, #[repr(C, align(32))] {});
+token!(Blob5K, u32, u32, #[repr(C, align(8))] { pad: [u64; 640] = [0x0B10B5B10B5B10B5; 640] });
 token!(Tok256, u32, u32, #[repr(C, align(8))] { pad: [u64; 31] = [0x0256025602560256; 31] });
 
 impl FieldType for f64 {
@@ -804,7 +858,7 @@ mod tests {
         law::<()>(); law::<[u8; 3]>(); law::<[u16; 3]>(); law::<[u32; 3]>(); law::<[u64; 3]>(); law::<[u64; 0]>(); law::<[u8; 5]>();
         law::<(u8, u32)>(); law::<A16>(); law::<A32>(); law::<Z16>(); law::<String>(); law::<Vec<u32>>(); law::<Box<str>>();
         law::<Option<String>>(); law::<[String; 2]>(); law::<Tok8>(); law::<Tok4>(); law::<Tok12>(); law::<Tok16>();
-        law::<TokBox>(); law::<Tok3>(); law::<TokZ>(); law::<BigTok>(); law::<Vec<Tok8>>(); law::<[u64; 12]>(); law::<A64>(); law::<Wide320>(); law::<HugeTok>(); law::<Tok256>(); law::<A128>(); law::<&'static mut u32>(); law::<f64>(); law::<fn(u32) -> u32>(); law::<*const u8>(); law::<Box<dyn Fn(u32) -> u32 + Send + Sync>>(); law::<string::String<8>>();
+        law::<TokBox>(); law::<Tok3>(); law::<TokZ>(); law::<BigTok>(); law::<Vec<Tok8>>(); law::<[u64; 12]>(); law::<A64>(); law::<Wide320>(); law::<HugeTok>(); law::<Tok256>(); law::<A128>(); law::<&'static mut u32>(); law::<f64>(); law::<fn(u32) -> u32>(); law::<*const u8>(); law::<Box<dyn Fn(u32) -> u32 + Send + Sync>>(); law::<string::String<8>>(); law::<[u8; 20]>(); law::<TokA32>(); law::<Blob5K>(); law::<Tile8K>(); law::<Buf80K>();
         assert!(crate::ledger_live().is_empty());
         assert_eq!(crate::zst_live(), 0);
         assert!(crate::ledger_take_errors().is_empty());
@@ -822,5 +876,9 @@ mod tests {
         assert_eq!((size_of::<A16>(), align_of::<A16>()), (16, 16));
         assert_eq!((size_of::<A32>(), align_of::<A32>()), (32, 32));
         assert_eq!(size_of::<Tok256>(), 256);
+        assert_eq!((size_of::<TokA32>(), align_of::<TokA32>()), (32, 32));
+        assert_eq!(size_of::<Blob5K>(), 5128);
+        assert_eq!((size_of::<Tile8K>(), align_of::<Tile8K>()), (8192, 64));
+        assert_eq!(size_of::<Buf80K>(), 80000);
     }
 }
